@@ -492,8 +492,23 @@ func c16Walk(r *core.Run) {
 				if !ok {
 					break
 				}
-				if s, isC := core.ConstString(b); isC && isName(a) && op == token.EQL && s == "vendor" {
+				if s, isC := core.ConstString(b); isC && isName(a) && (op == token.EQL || op == token.NEQ) && s == "vendor" {
 					return "vendor", true
+				}
+				// name[0] == '.' — the hand-written form of strings.HasPrefix(name, ".")
+				var ixX, ixI ssa.Value
+				switch e := a.(type) {
+				case *ssa.Lookup:
+					ixX, ixI = e.X, e.Index
+				case *ssa.Index:
+					ixX, ixI = e.X, e.Index
+				}
+				if ixX != nil && isName(ixX) && (op == token.EQL || op == token.NEQ) {
+					if i, isC := core.ConstInt(ixI); isC && i == 0 {
+						if ch, isC := core.ConstInt(b); isC && ch == '.' {
+							return "hidden", true
+						}
+					}
 				}
 				if ln, isLen := isBuiltinCall(a, "len"); isLen && isName(ln.Call.Args[0]) {
 					if k, isC := core.ConstInt(b); isC && k == 1 && op == token.GTR {
